@@ -11,7 +11,7 @@
    Theorems are for every name type with a correct equality test (C12_names_decidable: byte strings qualify),
    every table type, every genome size and every number of groups. *)
 From Coq Require Import ZArith List Bool String.
-From BNP Require Import Base.Prims Model.C12 Proofs.C12 Proofs.C12_groupby.
+From BNP Require Import Base.Prims Model.C12 Proofs.C12 Proofs.C12_groupby Gen.C12 Bridge.C12.
 Import ListNotations.
 Open Scope Z_scope.
 
@@ -240,6 +240,53 @@ Theorem C12_end_to_end :
     end.
 Proof. exact genome_end_to_end. Qed.
 Print Assumptions C12_end_to_end.
+
+(* ---- Source tie: the decision rules regenerated from /repo on this run (Gen/C12.v, written by translate/gen_c12.py
+   from genome_context.py, multistream.py, left_join.py, groupby_func.py, genomic_track.py) are the rules the model is
+   built from — which names are ignored / included, the order that is walked, skip / raise / yield in _included_groups,
+   the sort-order and left-over tests of iter_chromosomes and that they run BEFORE the yield, SynchedStream's guards and
+   skipping loop (and that its look-ahead is absent), left_join's two tests, that a group boundary is an inequality of
+   the WHOLE adjacent keys, the first-equals-last fast path, the join key, and get_data asking the name stream first;
+   and the model variants in use (genome_trace_head, synched_head) are the ones these facts select.  Bridge/C12.v also
+   proves that the model's state machines take exactly the steps these rules prescribe (the lemmas whose names start with s_). ---- *)
+Theorem C12_source_tie :
+  (forall a b : bool,
+      gen_filter_ignore_underscores a = m_filter_ignore_underscores a
+      /\ gen_ctx_is_ignored true = m_ctx_is_ignored true a
+      /\ gen_ctx_is_ignored (gen_filter_ignore_underscores a) = m_ctx_is_ignored false a
+      /\ gen_ctx_is_included a = m_ctx_is_included a
+      /\ gen_included_action a b = m_included_action a b
+      /\ gen_walk_is_match a = m_walk_is_match a
+      /\ gen_walk_order_error a b = m_walk_order_error a b
+      /\ gen_walk_leftover_error a = m_walk_leftover_error a
+      /\ gen_sync_check a b = m_sync_check a b
+      /\ gen_sync_keeps_skipping a b = m_sync_keeps_skipping a b
+      /\ gen_lj_gets_default a = m_lj_gets_default a
+      /\ gen_lj_final_ok a a = m_lj_final_ok a
+      /\ gen_change_at a = m_change_at a)
+  /\ (forall enc has_len len_eq eq : bool,
+        (enc || has_len)%bool = true -> (eq = true -> len_eq = true) -> gen_fast_path enc has_len len_eq eq = m_fast_path eq)
+  /\ gen_order_drops_underscore_names = m_order_drops_underscore_names
+  /\ gen_walk_checks_before_yield = m_walk_checks_before_yield
+  /\ gen_sync_checks_before_yield = m_sync_checks_before_yield
+  /\ gen_change_offsets = m_change_offsets
+  /\ gen_join_key_and_payload_index = m_join_key_and_payload_index
+  /\ gen_get_data_names_first = m_get_data_names_first
+  /\ genome_trace_head = genome_trace (negb m_order_drops_underscore_names) m_walk_checks_before_yield
+  /\ (forall order gs, synched_head order gs
+        = if m_sync_checks_before_yield then synched_ahead bname zlist_eqb ids [] order gs
+          else synched bname zlist_eqb ids [] order gs).
+Proof.
+  exact (conj (fun a b =>
+           conj (b_filter_ignore_underscores a) (conj (proj1 (b_ctx_is_ignored a)) (conj (proj2 (b_ctx_is_ignored a))
+          (conj (b_ctx_is_included a) (conj (b_included_action a b) (conj (b_walk_is_match a) (conj (b_walk_order_error a b)
+          (conj (b_walk_leftover_error a) (conj (b_sync_check a b) (conj (b_sync_keeps_skipping a b) (conj (b_lj_gets_default a)
+          (conj (b_lj_final_ok a) (b_change_at a)))))))))))))
+         (conj b_fast_path (conj b_order_drops_underscore_names (conj b_walk_checks_before_yield
+         (conj b_sync_checks_before_yield (conj b_change_offsets (conj b_join_key_and_payload_index
+         (conj b_get_data_names_first s_switches)))))))).
+Qed.
+Print Assumptions C12_source_tie.
 
 (* non-vacuity: a concrete genome (chr1, chr2_alt ignored by the default filter, chr3), data for chr1, the
    ignored contig and chr3 in three chunks with a cut inside chr1: the hypotheses hold, the Spec yields the
